@@ -344,9 +344,9 @@ add("scan_candidate", "h_expand.c", "h_scan_candidate", {"C10": "quick"}, cbmc=[
     witnesses=["nothing_found", "candidate_not_ahead_of_parser", "candidate_ahead_of_parser"],
     bounds="one input block of 4 words; parser position and candidate position (any bit position inside the block) symbolic; scan() stub reports a candidate at the chosen position or none",
     assumptions=EXP_ASM + ["scan() stub may report a candidate at ANY position (also spurious ones)"])
-for _nu, _tier, _to in ((1, "quick", 900), (2, "thorough", 3000), (3, "thorough", 3000)):
+for _nu, _tier, _to in ((3, "quick", 900),):
   add("parse_match_u%d" % _nu, "h_expand.c", "h_parse_match", {"C10": _tier}, defines=["-DREAL_HEAP", "-DNU=%d" % _nu], extra_src=[("process.c", ["-include", "/verif/harness/proc_rename.h"])],
-    cbmc=["--unwind", "20"], backend="kissat", timeout=_to, mem_gb=8,
+    cbmc=["--unwind", "20", "--unwindset", "do_parse.4:%d,advance.0:3,advance.1:%d,advance.2:%d,down_heap.0:4,up_heap.0:4" % (_nu + 2, _nu + 2, _nu + 2)], backend="kissat", timeout=_to, mem_gb=8,
     functions=["src/expand.c:do_parse (block found)", "src/expand.c:can_parse", "src/expand.c:attach", "src/expand.c:detach", "src/expand.c:advance", "src/process.c:up_heap", "src/process.c:down_heap"],
     witnesses=["stale_candidate_discarded", "candidate_confirmed", "block_only_the_parser_found"],
     bounds="0..%d candidates on record at arbitrary distinct bit positions of a 4-word input block, each finished or unfinished; the parser finds a block header ending at an arbitrary bit position" % _nu,
